@@ -114,6 +114,6 @@ func Main(reg map[string]func(*A) templ.Component, setBuf func(int)) {
 	enc := json.NewEncoder(out)
 	for _, j := range jobs {
 		enc.Encode(RenderJob(reg, j))
+		out.Flush() // a crash (stack overflow, fatal error) must not lose the results so far
 	}
-	out.Flush()
 }
